@@ -97,8 +97,8 @@ def run_check(family, pid: str, tier: str, seed: int) -> int:
         except Exception:
             deps = [prop_v]
         model_ok_for_cases = True
-        if not ctx.build_ok and not tr_fail:
-            # the proofs broke; the executable model (family.model_targets) may still build: needed for T and the search
+        if not tr_fail:
+            # the executable model used by the correspondence check (it may build even when a proof broke)
             model_ok_for_cases, mlog = coq.make([t + 'o' for t in family.model_targets], timeout=900)
             if not model_ok_for_cases:
                 ctx.build_log += '\n--- model targets ---\n' + mlog
